@@ -19,7 +19,6 @@ import (
 	"github.com/valyala/fasthttp"
 
 	"github.com/basekick-labs/arc/internal/auth"
-	"github.com/basekick-labs/arc/internal/cluster"
 	clusterraft "github.com/basekick-labs/arc/internal/cluster/raft"
 	"github.com/basekick-labs/arc/internal/license"
 	"github.com/basekick-labs/arc/internal/simrt"
@@ -161,35 +160,63 @@ func (n *authNode) noteApply(what string, err error) {
 func (n *authNode) wireFSM() {
 	am, rm, f := n.am, n.rm, n.fsm
 	f.SetAuthCallbacks(
-		func(e *clusterraft.TokenEntry) { n.noteApply("CreateToken", am.ApplyCreateToken(cluster.ToAuthTokenEntry(e))) },
-		func(e *clusterraft.TokenEntry) { n.noteApply("UpdateToken", am.ApplyUpdateToken(cluster.ToAuthTokenEntry(e))) },
+		func(e *clusterraft.TokenEntry) { n.noteApply("CreateToken", am.ApplyCreateToken(toAuthToken(e))) },
+		func(e *clusterraft.TokenEntry) { n.noteApply("UpdateToken", am.ApplyUpdateToken(toAuthToken(e))) },
 		func(id int64) { n.noteApply("RevokeToken", am.ApplyRevokeToken(id)) },
 		func(id int64) { n.noteApply("DeleteToken", am.ApplyDeleteToken(id)) },
 		func(id int64, h, p string, lsn uint64) { n.noteApply("RotateToken", am.ApplyRotateToken(id, h, p)) },
 	)
 	f.SetRBACCallbacks(
 		func(e *clusterraft.OrganizationEntry) {
-			n.noteApply("CreateOrganization", rm.ApplyCreateOrganization(cluster.ToAuthOrganizationEntry(e)))
+			n.noteApply("CreateOrganization", rm.ApplyCreateOrganization(toAuthOrg(e)))
 		},
 		func(e *clusterraft.OrganizationEntry) {
-			n.noteApply("UpdateOrganization", rm.ApplyUpdateOrganization(cluster.ToAuthOrganizationEntry(e)))
+			n.noteApply("UpdateOrganization", rm.ApplyUpdateOrganization(toAuthOrg(e)))
 		},
 		func(id int64) { n.noteApply("DeleteOrganization", rm.ApplyDeleteOrganization(id)) },
-		func(e *clusterraft.TeamEntry) { n.noteApply("CreateTeam", rm.ApplyCreateTeam(cluster.ToAuthTeamEntry(e))) },
-		func(e *clusterraft.TeamEntry) { n.noteApply("UpdateTeam", rm.ApplyUpdateTeam(cluster.ToAuthTeamEntry(e))) },
+		func(e *clusterraft.TeamEntry) { n.noteApply("CreateTeam", rm.ApplyCreateTeam(toAuthTeam(e))) },
+		func(e *clusterraft.TeamEntry) { n.noteApply("UpdateTeam", rm.ApplyUpdateTeam(toAuthTeam(e))) },
 		func(id int64) { n.noteApply("DeleteTeam", rm.ApplyDeleteTeam(id)) },
-		func(e *clusterraft.RoleEntry) { n.noteApply("CreateRole", rm.ApplyCreateRole(cluster.ToAuthRoleEntry(e))) },
-		func(e *clusterraft.RoleEntry) { n.noteApply("UpdateRole", rm.ApplyUpdateRole(cluster.ToAuthRoleEntry(e))) },
+		func(e *clusterraft.RoleEntry) { n.noteApply("CreateRole", rm.ApplyCreateRole(toAuthRole(e))) },
+		func(e *clusterraft.RoleEntry) { n.noteApply("UpdateRole", rm.ApplyUpdateRole(toAuthRole(e))) },
 		func(id int64) { n.noteApply("DeleteRole", rm.ApplyDeleteRole(id)) },
 		func(e *clusterraft.MeasurementPermissionEntry) {
-			n.noteApply("CreateMeasurementPermission", rm.ApplyCreateMeasurementPermission(cluster.ToAuthMeasurementPermissionEntry(e)))
+			n.noteApply("CreateMeasurementPermission", rm.ApplyCreateMeasurementPermission(toAuthMP(e)))
 		},
 		func(id int64) { n.noteApply("DeleteMeasurementPermission", rm.ApplyDeleteMeasurementPermission(id)) },
 		func(e *clusterraft.TokenMembershipEntry) {
-			n.noteApply("AddTokenToTeam", rm.ApplyAddTokenToTeam(cluster.ToAuthTokenMembershipEntry(e)))
+			n.noteApply("AddTokenToTeam", rm.ApplyAddTokenToTeam(toAuthMembership(e)))
 		},
 		func(tokenID, teamID int64) { n.noteApply("RemoveTokenFromTeam", rm.ApplyRemoveTokenFromTeam(tokenID, teamID)) },
 	)
+}
+
+// Field-for-field copies of the FSM entry types into the auth package's mirror
+// types, as internal/cluster/auth_proposer.go (ToAuth*Entry) does; restated
+// here so that the area binary does not link the whole cluster package
+// (DuckDB, storage back-ends).
+func toAuthToken(e *clusterraft.TokenEntry) auth.ClusterTokenEntry {
+	return auth.ClusterTokenEntry{ID: e.ID, Name: e.Name, Description: e.Description, Permissions: e.Permissions, TokenHash: e.TokenHash,
+		TokenPrefix: e.TokenPrefix, CreatedAtUnixNano: e.CreatedAtUnixNano, ExpiresAtUnixNano: e.ExpiresAtUnixNano, Enabled: e.Enabled, LSN: e.LSN}
+}
+func toAuthOrg(e *clusterraft.OrganizationEntry) auth.ClusterOrganizationEntry {
+	return auth.ClusterOrganizationEntry{ID: e.ID, Name: e.Name, Description: e.Description, CreatedAtUnixNano: e.CreatedAtUnixNano,
+		UpdatedAtUnixNano: e.UpdatedAtUnixNano, Enabled: e.Enabled, LSN: e.LSN}
+}
+func toAuthTeam(e *clusterraft.TeamEntry) auth.ClusterTeamEntry {
+	return auth.ClusterTeamEntry{ID: e.ID, OrganizationID: e.OrganizationID, Name: e.Name, Description: e.Description,
+		CreatedAtUnixNano: e.CreatedAtUnixNano, UpdatedAtUnixNano: e.UpdatedAtUnixNano, Enabled: e.Enabled, LSN: e.LSN}
+}
+func toAuthRole(e *clusterraft.RoleEntry) auth.ClusterRoleEntry {
+	return auth.ClusterRoleEntry{ID: e.ID, TeamID: e.TeamID, DatabasePattern: e.DatabasePattern, Permissions: e.Permissions,
+		CreatedAtUnixNano: e.CreatedAtUnixNano, LSN: e.LSN}
+}
+func toAuthMP(e *clusterraft.MeasurementPermissionEntry) auth.ClusterMeasurementPermissionEntry {
+	return auth.ClusterMeasurementPermissionEntry{ID: e.ID, RoleID: e.RoleID, MeasurementPattern: e.MeasurementPattern, Permissions: e.Permissions,
+		CreatedAtUnixNano: e.CreatedAtUnixNano, LSN: e.LSN}
+}
+func toAuthMembership(e *clusterraft.TokenMembershipEntry) auth.ClusterTokenMembershipEntry {
+	return auth.ClusterTokenMembershipEntry{ID: e.ID, TokenID: e.TokenID, TeamID: e.TeamID, CreatedAtUnixNano: e.CreatedAtUnixNano, LSN: e.LSN}
 }
 
 func dur(ms int) time.Duration { return time.Duration(ms) * time.Millisecond }
